@@ -20,7 +20,7 @@ CLAUSE_PROP = {
     "V_noraise": "C06", "V_accept": "C04", "V_dropwhole": "C04", "V_counted": "C04", "V_deliver": "C04", "V_once": "C04",
 }
 # clauses that more than one property relies on
-ALSO = {"E_left": ("C05", "C07"), "K_notstuck": ("C09",), "S_fit": ("C09",), "V_accept": ("C08",), "V_deliver": ("C06",), "S_ok": ("C09",), "B_seq": ("C03",)}
+ALSO = {"B_known": ("C04", "C05", "C07"), "V_exact": ("C04",), "E_left": ("C05", "C07"), "K_notstuck": ("C09",), "S_fit": ("C09",), "V_accept": ("C08",), "V_deliver": ("C06",), "S_ok": ("C09",), "B_seq": ("C03",)}
 
 
 def props_of(clause):
@@ -190,3 +190,43 @@ def run_scenarios(ctx, mine, scenarios, workers=6):
         ctx.sample(dict(scenario=names[0], first_events=traces[0][1:4], n_events=len(traces[0])))
     report(ctx, rej, traces, lambda tid: names[tid - 1] if tid else "?", mine)
     return traces, rej
+
+
+def _lateness(args):
+    """One datagram of the client is overtaken by L others, arrives, and then everything is replayed once (window boundary sweep)."""
+    L, start, seed = args
+    w = W.ConnWorld(start_seq=start)
+    try:
+        import random
+        rnd = random.Random(seed)
+        late = rnd.randint(2, 5)
+
+        def sends(tick, name, world):
+            return [(rnd.choice([4, 20, 60]), 0, False)] if name == "c" and tick <= L + late + 3 else []
+
+        def fate(tick, name, dgid, world):
+            if name == "c" and dgid == late:
+                return [L]
+            return [0]
+
+        def replays(tick, name, world):
+            if name == "c" and tick == L + late + 6:
+                return list(range(1, len(world.emitted["c"]) + 1))
+            return []
+        return w.run(W.FnPolicy(sends, fate, replays), L + late + 14, heal_after=L + late + 10, quiesce_ticks=200)
+    finally:
+        w.close()
+
+
+def lateness_sweep(ctx, mine, lates, starts=(None, 65500, 65530)):
+    from concurrent.futures import ProcessPoolExecutor
+    jobs = [(L, st, ctx.seed + L) for L in lates for st in starts]
+    with ProcessPoolExecutor(16) as ex:
+        traces = list(ex.map(_lateness, jobs))
+    names = ["lateness-%d(start=%s)" % (j[0], j[1]) for j in jobs]
+    rej, r = judge(ctx, traces, "Trace_Conn %s lateness sweep (%d traces)" % (mine, len(traces)), stale=True, ctxdev=True)
+    ctx.traces += len(traces) - len({x["tid"] for x in rej})
+    for t in traces:
+        ctx.evaluations += len(t)
+    ctx.extra["lateness_sweep"] = "%d schedules, lateness %d..%d" % (len(jobs), min(lates), max(lates))
+    report(ctx, rej, traces, lambda tid: names[tid - 1], mine)
